@@ -31,7 +31,15 @@
 (*         node that is restored from the snapshot and replays the tail     *)
 (*         ends in ApplyEntry(fold, lastE)                                  *)
 (* F5 (known finding) is modelled in Marshal: WhitelistedOrigins are not    *)
-(* serialised (FixedF5 = FALSE).                                            *)
+(* serialised (FixedF5 = FALSE).  Repaired behaviour is modelled for        *)
+(*   F3   Restore re-establishes FSM.sessionExpirationDur,                   *)
+(*   F18  folding an old Config entry in Snapshot leaves it alone,           *)
+(*   F19  capKey = "" stands for a nil AND for an empty CaptchaHMACSecret    *)
+(*        (Unmarshal and the GET/POST round trip turn nil into empty;        *)
+(*        captchaConfigured() must treat both alike).                        *)
+(* Not modelled: until the first Config entry every IRCServer of a process  *)
+(* shares the Banned map of config.DefaultConfig (NewIRCServer copies the   *)
+(* struct); GLINE needs an operator, hence a posted config with its own map.*)
 (***************************************************************************)
 EXTENDS Integers, Sequences, FiniteSets, TLC, Json
 
